@@ -834,9 +834,11 @@ where
 	let parent_key_id = wallet.parent_key_id();
 
 	let key_id = match key_id {
-		Some(key_id) => match keys::retrieve_existing_key(wallet, key_id, None) {
-			Ok(k) => k.0,
-			Err(_) => keys::next_available_key(wallet, keychain_mask)?,
+		// A caller-supplied key id may only name the still-unconfirmed coinbase
+		// candidate it replaces, never any other existing output
+		Some(key_id) => match wallet.get(&key_id, &None) {
+			Ok(o) if o.is_coinbase && o.status == OutputStatus::Unconfirmed => o.key_id,
+			_ => keys::next_available_key(wallet, keychain_mask)?,
 		},
 		None => keys::next_available_key(wallet, keychain_mask)?,
 	};
